@@ -298,15 +298,20 @@ def plan(tier, rng, sl, nslices, stats):
         elif k == 1:
             c = gpda.random_case(rng, vcs=["str", "int"])
             c["graph_names"] = rng.random() < 0.3
+            c["graph_syms"] = c["graph_names"] and rng.random() < 0.6
             c["lonely_final"] = rng.random() < 0.25
             yield {"kind": "pda", "p": c}
         elif k == 2:
             c = gfst.random_case(rng, vcs=["str", "int"])
-            c["graph_names"] = rng.random() < 0.3
+            if rng.random() < 0.35:
+                # symbols that look like pieces of a label ("->" and "/" without the blanks of the separators)
+                c["vc"] = rng.choice(["graph", "str"])
+                c["ins"] = rng.choice([["a->b", "/"], ["->", "a"], ["a/b", "b->"]])
+                c["outs"] = rng.choice([["x/y", "->", "a->b", 1, "1"], ["x", "y->", "/", 1, "1"]])
             yield {"kind": "fst", "t": c}
         elif k == 3:
             c = gcfg.random_case(rng, max_vars=3, max_terms=3, max_prods=6, max_body=3,
-                                 vcs=["str", "lower", "lower", "odd"], p_eps=rng.choice([0, 0.2]))
+                                 vcs=["str", "lower", "lower", "odd", "clash", "lowerclash"], p_eps=rng.choice([0, 0.2]))
             yield {"kind": "cfg", "g": c}
         elif k == 4:
             ast = rs.gen_ast(rng, rng.choice([1, 2, 3]), escaped=0)
@@ -373,9 +378,14 @@ def run_case(c, stats):
             names = {p.start_state.value: "starting_0"}
             for s in p.states:
                 names.setdefault(s.value, GRAPH_STATES[len(names) % len(GRAPH_STATES)])
+            sy = (lambda v: {"a": "a->b", "b": "/", "Z": "Z/0", "X": "->", "Y": "X->Y"}.get(v, v)) \
+                if cc.get("graph_syms") else (lambda v: v)
+            if cc.get("graph_syms"):
+                p2 = PDA(start_state="starting_0", start_stack_symbol=sy(p._start_stack_symbol.value))
             for (q, a, X), outs in p.to_dict().items():
                 for (r, push) in outs:
-                    p2.add_transition(names[q.value], a.value, X.value, names[r.value], [y.value for y in push])
+                    p2.add_transition(names[q.value], sy(a.value), sy(X.value), names[r.value],
+                                      [sy(y.value) for y in push])
             for f in p.final_states:
                 p2.add_final_state(names.get(f.value, f.value))
             p = p2
